@@ -32,6 +32,9 @@ CORPUS = [
     # two variables fail at every choice, a third depends on one of them only, a fourth on neither
     'int f(int c,int a,int b,int r,int s){ while (c) { a = a * a; b = b * b; r = a; s = c; } }',
     'int f(int c,int a,int r,int s){ while (c) { a = a * a; r = c; s = s; } }',
+    # closure whose last productive round only appends monomials (3-hop flow in reverse order, shortcuts as copies)
+    'int f(int n,int a,int b,int c,int d,int g,int h){ int i; for (i = 0; i < n; i++) { if (g) { d = b; } else { if (h) { d = a; } else { d = c; } } if (g) { c = a; } else { c = b + b; } b = a; } }',
+    'int f(int n,int c,int s,int g,int e,int k1,int k2,int d){ int i; for (i = 0; i < n; i++) { if (c) { d = s; } if (c) { d = g; } if (c) { d = k1; } if (c) { d = k2 + e; } if (c) { k2 = s; } if (c) { k2 = g; } if (c) { k2 = k1 * k1; } if (c) { k1 = s + g; } } }',
     # a dependent variable with three sources, the restricting one last / first in the variable order
     'int f(int n,int base,int z,int out){ int i; for (i = 0; i < n; i++) { z = z + base; out = z * z; } }',
     'int f(int n,int base,int acc,int out){ int i; for (i = 0; i < n; i++) { acc = acc + base; out = acc * acc; } }',
